@@ -14,7 +14,27 @@ use std::sync::atomic::{AtomicBool, AtomicU64, Ordering};
 use std::sync::Mutex;
 use std::time::Instant;
 
-pub const VERIF_DIR: &str = "/verif";
+/// Root of the verification tree: `DLTMC_VERIF_DIR`, else derived from the location of this binary
+/// (`<root>/mc/target/release/dltmc`), else `/verif`.  Scratch copies used for mutant trials
+/// therefore write their evidence and replays into the copy, never into /verif.
+pub fn verif_dir() -> String {
+    if let Ok(d) = std::env::var("DLTMC_VERIF_DIR") {
+        return d;
+    }
+    if let Ok(exe) = std::env::current_exe() {
+        if let Some(root) = exe.ancestors().nth(4) {
+            if root.join("known_findings.json").exists() {
+                return root.to_string_lossy().to_string();
+            }
+        }
+    }
+    "/verif".to_string()
+}
+/// The repository under test (only used for reading its sample FIBEX files; the code itself is
+/// linked as a cargo path dependency).
+pub fn repo_dir() -> String {
+    std::env::var("DLTMC_REPO").unwrap_or_else(|_| "/repo".to_string())
+}
 pub const MAX_REPORTED: usize = 12;
 
 #[derive(Clone, Copy, PartialEq, Eq, Debug)]
@@ -180,7 +200,7 @@ pub struct KnownEntry {
 }
 
 pub fn load_known_findings() -> Vec<KnownEntry> {
-    let path = format!("{}/known_findings.json", VERIF_DIR);
+    let path = format!("{}/known_findings.json", verif_dir());
     let txt = match std::fs::read_to_string(&path) {
         Ok(t) => t,
         Err(_) => return vec![],
@@ -609,7 +629,7 @@ impl Ctx {
         let replay_mode = self.replay.is_some();
         if total > 0 {
             exit = 1;
-            std::fs::create_dir_all(format!("{}/replays", VERIF_DIR)).ok();
+            std::fs::create_dir_all(format!("{}/replays", verif_dir())).ok();
             // distinct keys first so the report shows different failure sites
             let mut seen: BTreeMap<String, usize> = BTreeMap::new();
             let mut n = 0;
@@ -624,7 +644,7 @@ impl Ctx {
                     "(replayed)".to_string()
                 } else {
                     let h = fnv64(format!("{}{}{}{}", v.family, v.index, v.key, v.description).as_bytes());
-                    let path = format!("{}/replays/{}-{:016x}.json", VERIF_DIR, self.prop, h);
+                    let path = format!("{}/replays/{}-{:016x}.json", verif_dir(), self.prop, h);
                     let body = json!({
                         "property": self.prop, "tier": self.tier.name(), "family": v.family, "index": v.index,
                         "key": v.key, "description": v.description, "details": v.details,
@@ -671,8 +691,8 @@ impl Ctx {
                 "wall_s": (wall * 1000.0).round() / 1000.0,
                 "violations": total,
             });
-            std::fs::create_dir_all(format!("{}/evidence", VERIF_DIR)).ok();
-            let path = format!("{}/evidence/{}.json", VERIF_DIR, self.prop);
+            std::fs::create_dir_all(format!("{}/evidence", verif_dir())).ok();
+            let path = format!("{}/evidence/{}.json", verif_dir(), self.prop);
             std::fs::write(&path, serde_json::to_string_pretty(&ev).unwrap()).expect("write evidence");
         }
         eprintln!(
